@@ -320,3 +320,63 @@ def exec_src(src, ns, filename="<jtv-generated>"):
     annotations` (which would stringify every annotation of the generated function)."""
     exec(compile(src, filename, "exec", dont_inherit=True), ns)
     return ns
+
+
+def temporaries_probe(rec, prop, rounds=24):
+    """Inside ONE open scope, the same annotation object is asked about a long series of short-lived values: each is
+    created, checked and dropped, so CPython hands its address (its id()) to the next one.  A verdict belongs to the
+    value: whatever was decided about an object that has since died says nothing about the newcomer.
+    Array annotation, PyTree-of-arrays annotation and a structured PyTree with a `?` axis; counts id() reuse seen."""
+    import jaxtyping
+
+    N = np.ndarray
+    Vec = jaxtyping.Float[N, "jtvt"]
+    Tree = jaxtyping.PyTree[jaxtyping.Float[N, "jtvu"]]
+    Q = jaxtyping.PyTree[jaxtyping.Float[N, "?jtvq 2"], "JTVT"]
+
+    def fresh(shape, dtype="float32"):
+        return np.zeros(shape, dtype=dtype)  # never cached: really a new object each time
+
+    def body():
+        out = []
+        seen_ids = set()
+        reused = 0
+        for k in range(rounds):
+            # --- plain arrays against one annotation object
+            a = fresh((3,))
+            out.append(("arr-good", check(a, Vec), "ok"))
+            i = id(a)
+            del a
+            b = fresh((4,)) if k % 2 else fresh((3,), "int32")
+            reused += id(b) == i or id(b) in seen_ids
+            seen_ids.add(i)
+            out.append(("arr-bad", check(b, Vec), "no"))
+            del b
+            # --- containers against one PyTree annotation
+            t = [fresh((5,)), fresh((5,))]
+            out.append(("tree-good", check(t, Tree), "ok"))
+            i = id(t)
+            del t
+            u = [fresh((5,)), fresh((6,))] if k % 2 else [fresh((5,)), fresh((5,), "int32")]
+            reused += id(u) == i
+            out.append(("tree-bad", check(u, Tree), "no"))
+            del u
+            # --- structured tree with a per-leaf '?' axis: leaf 0 has 3 rows, leaf 1 has 5, in every tree of the scope
+            g = (fresh((3, 2)), fresh((5, 2)))
+            out.append(("qtree-good", check(g, Q), "ok"))
+            i = id(g)
+            del g
+            h = (fresh((3, 2)), fresh((6, 2))) if k % 2 else (fresh((3, 2)), fresh((5, 3)))
+            reused += id(h) == i
+            out.append(("qtree-bad", check(h, Q), "no"))
+            del h
+        return out, reused
+
+    out, reused = in_block_context(body)
+    rec.count("temporaries.checks", len(out))
+    rec.count("temporaries.id_reuse_observed", int(reused))
+    for idx, (what, got, want) in enumerate(out):
+        if got != want:
+            rec.violation("identity", {"temporaries_probe": what, "index": idx, "property": prop}, f"short-lived values in one scope, check #{idx} ({what}): {got}, expected {want} - the value was judged by what an earlier, dead object of the same address looked like" if want == "no" else f"short-lived values in one scope, check #{idx} ({what}): {got}, expected {want}", mechanism=f"temporary-{what}-{got}")
+            return False
+    return True
